@@ -104,7 +104,9 @@ class Scheduler:
 
     # ----- scheduler side (runs in the thread that called map()/shutdown())
     def loop(self):
-        if self.finished:
+        # re-entrant: every pool the code under test creates during one execution (a loader pool, then the per-file pool ...)
+        # hands its tasks to the same scheduler; a call returns when every task submitted so far has finished
+        if self.tasks and all(t.done for t in self.tasks):
             return
         while True:
             live = [t.idx for t in self.tasks if not t.done]
